@@ -1,4 +1,114 @@
+/-
+  C03 — Proportions are count over base, bounded, and sum to one.
+  Property theorems only.
+-/
+import CrCube.Lemmas.SpecFacts
+import CrCube.Lemmas.ValFacts
 import CrCube.Model.SliceApi
-import CrCube.Spec.SliceSpec
+import CrCube.Props.C01
+import CrCube.Props.C02
+
+set_option linter.unusedSimpArgs false
+
 namespace CrCube.C03
+open CrCube
+
+/-- the three directions of a proportion -/
+inductive Dir where | row | col | table
+  deriving DecidableEq
+
+def Dir.modes : Dir → List Bool
+  | .row => [false, true]
+  | .col => [true, false]
+  | .table => [true, true]
+
+def prop (d : Dir) (m : MatCounts) : Nat → Nat → Val :=
+  match d with
+  | .row => m.rowProportions
+  | .col => m.columnProportions
+  | .table => m.tableProportions
+
+/-- respondent-level count and base of a cell -/
+def cnt (R C : Var) (s : Survey) (i j : Nat) : Rat := specCount [R, C] s [i, j] [false, false]
+def base (d : Dir) (R C : Var) (s : Survey) (i j : Nat) : Rat := specCount [R, C] s [i, j] d.modes
+
+/-- **Proportion = count / base**, NaN exactly where the base is zero, else a rational in [0, 1]
+    (all three directions; weights non-negative). -/
+theorem prop_spec (d : Dir) (R C : Var) (hR : R.CM) (hC : C.CM) (s : Survey)
+    (hw : WeightsNonneg s) (i j : Nat) (hi : i < R.ext) (hj : j < C.ext) :
+    prop d (sliceCounts [R, C] (cubeOf [R, C] s) 0) i j
+      = if base d R C s i j = 0 then .nan else .fin (cnt R C s i j / base d R C s i j) := by
+  have h0 : 0 ≤ cnt R C s i j := specCount_nonneg _ s hw _ _
+  cases d
+  · simp only [prop, MatCounts.rowProportions, C01.counts_faithful_2d R C hR hC s i j hi hj,
+      C02.rowBase_spec_2d R C hR hC s i j hi hj]
+    exact Val.div_count_base _ _ h0 (specCount_le_rowBase R C hR hC s hw i j)
+  · simp only [prop, MatCounts.columnProportions, C01.counts_faithful_2d R C hR hC s i j hi hj,
+      C02.colBase_spec_2d R C hR hC s i j hi hj]
+    exact Val.div_count_base _ _ h0 (specCount_le_colBase R C hR hC s hw i j)
+  · simp only [prop, MatCounts.tableProportions, C01.counts_faithful_2d R C hR hC s i j hi hj,
+      C02.tableBase_spec_2d R C hR hC s i j hi hj]
+    exact Val.div_count_base _ _ h0 (specCount_le_tableBase R C hR hC s hw i j)
+
+theorem cnt_le_base (d : Dir) (R C : Var) (hR : R.CM) (hC : C.CM) (s : Survey)
+    (hw : WeightsNonneg s) (i j : Nat) : cnt R C s i j ≤ base d R C s i j := by
+  cases d
+  · exact specCount_le_rowBase R C hR hC s hw i j
+  · exact specCount_le_colBase R C hR hC s hw i j
+  · exact specCount_le_tableBase R C hR hC s hw i j
+
+/-- proportions lie in [0, 1] or are NaN -/
+theorem prop_range (d : Dir) (R C : Var) (hR : R.CM) (hC : C.CM) (s : Survey)
+    (hw : WeightsNonneg s) (i j : Nat) (hi : i < R.ext) (hj : j < C.ext) :
+    prop d (sliceCounts [R, C] (cubeOf [R, C] s) 0) i j = .nan ∨
+    ∃ q : Rat, prop d (sliceCounts [R, C] (cubeOf [R, C] s) 0) i j = .fin q ∧ 0 ≤ q ∧ q ≤ 1 := by
+  rw [prop_spec d R C hR hC s hw i j hi hj]
+  by_cases hb : base d R C s i j = 0
+  · left; simp [hb]
+  · right
+    refine ⟨cnt R C s i j / base d R C s i j, by simp [hb], ?_⟩
+    exact Rat.div_mem_unit _ _ (specCount_nonneg _ s hw _ _) (cnt_le_base d R C hR hC s hw i j) hb
+
+/-- NaN exactly where the base is zero -/
+theorem prop_nan_iff (d : Dir) (R C : Var) (hR : R.CM) (hC : C.CM) (s : Survey)
+    (hw : WeightsNonneg s) (i j : Nat) (hi : i < R.ext) (hj : j < C.ext) :
+    prop d (sliceCounts [R, C] (cubeOf [R, C] s) 0) i j = .nan ↔ base d R C s i j = 0 := by
+  rw [prop_spec d R C hR hC s hw i j hi hj]
+  by_cases hb : base d R C s i j = 0 <;> simp [hb]
+
+/-- percentages are exactly 100 × proportions -/
+theorem pct_def (f : Nat → Nat → Val) (i j : Nat) : MatCounts.pct f i j = f i j * .fin 100 := rfl
+
+/-- Along a categorical columns dimension the row proportions of ALL base elements sum to 1
+    whenever the row base is positive. -/
+theorem row_props_sum_one (R C : Var) (hR : R.CM) (hC : C.kind = .cat) (s : Survey)
+    (hw : WeightsNonneg s) (i : Nat) (hi : i < R.ext)
+    (hb : base .row R C s i 0 ≠ 0) :
+    vsum C.ext (fun j => prop .row (sliceCounts [R, C] (cubeOf [R, C] s) 0) i j) = .fin 1 := by
+  have hCM : C.CM := Or.inl hC
+  -- the row base does not depend on the column for a categorical columns dimension
+  have hbase : ∀ j, base .row R C s i j = base .row R C s i 0 := by
+    intro j
+    unfold base Dir.modes
+    rw [← row_counts_sum_to_base R C hR hC s i j, ← row_counts_sum_to_base R C hR hC s i 0]
+  have step : ∀ j, j < C.ext →
+      prop .row (sliceCounts [R, C] (cubeOf [R, C] s) 0) i j
+        = .fin (cnt R C s i j / base .row R C s i 0) := by
+    intro j hj
+    rw [prop_spec .row R C hR hCM s hw i j hi hj, hbase j]
+    simp [hb]
+  rw [vsum_congr _ _ _ step, vsum_fin]
+  congr 1
+  have hsum := row_counts_sum_to_base R C hR hC s i 0
+  have : ((List.range C.ext).map fun j => cnt R C s i j / base .row R C s i 0).sum
+      = ((List.range C.ext).map fun j => cnt R C s i j).sum / base .row R C s i 0 := by
+    generalize List.range C.ext = L
+    induction L with
+    | nil => simp
+    | cons x L ih => simp only [List.map_cons, List.sum_cons, ih]; ring
+  rw [this]
+  unfold cnt base Dir.modes at *
+  rw [hsum]
+  exact div_self hb
+
 end CrCube.C03
